@@ -394,7 +394,7 @@ def power_divergence(X, Y, Z, data, boolean=True, lambda_="cressie-read", **kwar
                 c, _, d, _ = stats.chi2_contingency(contingency, lambda_=lambda_)
                 chi += c
                 dof += d
-        p_value = 1 - stats.chi2.cdf(chi, df=dof)
+        p_value = 1.0 if dof == 0 else 1 - stats.chi2.cdf(chi, df=dof)
 
     # Step 4: Return the values
     if boolean:
